@@ -96,42 +96,75 @@ def r19_3(ctx):
             continue
         node = found[lead]
         where = f"{f.module.relpath}:{node.lineno}"
-        sub = {}
+        # shape B: the parameters are read by a helper  `X = H(iter_codes)`  and the slot is filled with  from_color(.. X ..)
+        helper = None
+        hvar = None
         for x in ast.walk(ast.Module(body=node.body, type_ignores=[])):
+            if isinstance(x, ast.Assign) and isinstance(x.value, ast.Call) and isinstance(x.value.func, ast.Name) and x.value.func.id in f.module.functions and len(x.value.args) == 1 and norm(x.value.args[0]) == "iter_codes" and isinstance(x.targets[0], ast.Name):
+                helper = f.module.functions[x.value.func.id]
+                hvar = x.targets[0].id
+        region = helper.node.body if helper is not None else node.body
+        it_name = helper.params[0] if helper is not None else "iter_codes"
+        h_aliases = alias_map(helper.node) if helper is not None else aliases
+        sub = {}
+        for x in ast.walk(ast.Module(body=region, type_ignores=[])):
             if isinstance(x, ast.If) and isinstance(x.test, ast.Compare) and isinstance(x.test.comparators[0], ast.Constant) and x.test.comparators[0].value in (5, 2) and isinstance(x.test.ops[0], ast.Eq):
                 sub[x.test.comparators[0].value] = x
         # the selector is read from the parameter stream
-        sel_ok = any(isinstance(x, ast.Assign) and norm(x.value) == "next(iter_codes)" for x in ast.walk(ast.Module(body=node.body, type_ignores=[])))
+        sel_ok = any(isinstance(x, ast.Assign) and norm(x.value) == f"next({it_name})" for x in ast.walk(ast.Module(body=region, type_ignores=[])))
         ctx.check(sel_ok, f.fq, f"{lead}: selector", where, "selector read from the next parameter", f"SGR {lead}: the colour-space selector is not read from the next parameter")
+        # slot: from_color(colour) for 38, from_color(None, colour) for 48
+        slot_calls = [c for c in ast.walk(ast.Module(body=node.body, type_ignores=[])) if isinstance(c, ast.Call) and norm(expand_alias(c.func, aliases)).endswith("Style.from_color")]
+
+        def slot_arg(c):
+            if lead == 38:
+                good = len(c.args) == 1 and not c.keywords or (len(c.args) == 0 and kwarg(c, "color") is not None and kwarg(c, "bgcolor") is None)
+                return (c.args[0] if c.args else kwarg(c, "color")) if good else None
+            good = (len(c.args) == 2 and isinstance(c.args[0], ast.Constant) and c.args[0].value is None) or (kwarg(c, "bgcolor") is not None and not c.args and kwarg(c, "color") is None)
+            return (c.args[1] if len(c.args) == 2 else kwarg(c, "bgcolor")) if good else None
+        if helper is not None:
+            ok = len(slot_calls) == 1 and slot_arg(slot_calls[0]) is not None and norm(slot_arg(slot_calls[0])) == hvar
+            ctx.check(ok, f.fq, f"{lead}: {short(slot_calls[0]) if slot_calls else 'no from_color'}", where, f"the colour read by {helper.name}() fills the {'foreground' if lead == 38 else 'background'} slot",
+                      f"SGR {lead}: the colour read from the parameters is not placed in the {'foreground' if lead == 38 else 'background'} slot of Style.from_color")
         for sel, ctor, nnext in ((5, "Color.from_ansi", 1), (2, "Color.from_rgb", 3)):
             if sel not in sub:
                 ctx.violation(f.fq, f"{lead};{sel}", where, f"the decoder has no branch for {lead};{sel};… although the encoder emits it")
                 continue
-            calls = [c for c in ast.walk(ast.Module(body=sub[sel].body, type_ignores=[])) if isinstance(c, ast.Call) and norm(expand_alias(c.func, aliases)).endswith("Style.from_color")]
-            ok = len(calls) == 1
             detail = ""
-            if ok:
-                c = calls[0]
-                slot = None
-                colarg = None
-                if lead == 38:
-                    ok = len(c.args) == 1 and not c.keywords or (len(c.args) == 0 and kwarg(c, "color") is not None)
-                    colarg = c.args[0] if c.args else kwarg(c, "color")
-                else:
-                    ok = (len(c.args) == 2 and isinstance(c.args[0], ast.Constant) and c.args[0].value is None) or (kwarg(c, "bgcolor") is not None and not c.args)
-                    colarg = c.args[1] if len(c.args) == 2 else kwarg(c, "bgcolor")
-                if ok and isinstance(colarg, ast.Call):
-                    cn = norm(expand_alias(colarg.func, aliases))
-                    nx = [a for a in colarg.args if norm(a) == "next(iter_codes)"]
-                    ok = cn == ctor and len(nx) == nnext and len(colarg.args) == nnext
-                    detail = f"{cn}({len(nx)} params)"
-                else:
-                    ok = False
+            if helper is None:
+                calls = [c for c in ast.walk(ast.Module(body=sub[sel].body, type_ignores=[])) if isinstance(c, ast.Call) and norm(expand_alias(c.func, aliases)).endswith("Style.from_color")]
+                ok = len(calls) == 1
+                colarg = slot_arg(calls[0]) if ok else None
+            else:
+                rets = [r for r in ast.walk(ast.Module(body=sub[sel].body, type_ignores=[])) if isinstance(r, ast.Return)]
+                calls = rets
+                ok = len(rets) == 1
+                colarg = rets[0].value if ok else None
+            if ok and isinstance(colarg, ast.Call):
+                cn = norm(expand_alias(colarg.func, h_aliases))
+                nx = [a for a in colarg.args if norm(a) == f"next({it_name})"]
+                if not nx and all(isinstance(a, ast.Name) for a in colarg.args):
+                    # parameters read into temporaries first: they must be read in the order they are passed
+                    reads = [norm(x.targets[0]) for x in sub[sel].body if isinstance(x, ast.Assign) and len(x.targets) == 1 and norm(x.value) == f"next({it_name})"]
+                    if reads == [a.id for a in colarg.args]:
+                        nx = list(colarg.args)
+                ok = cn == ctor and len(nx) == nnext and len(colarg.args) == nnext
+                detail = f"{cn}({len(nx)} params)"
+            else:
+                ok = False
             ctx.check(ok, f.fq, f"{lead};{sel}: {short(calls[0]) if calls else 'no from_color'}", f"{f.module.relpath}:{sub[sel].lineno}",
                       f"{lead};{sel} -> {'foreground' if lead == 38 else 'background'} slot via {ctor} ({nnext} parameter(s))",
                       f"SGR {lead};{sel}: decoder does not build the {'foreground' if lead == 38 else 'background'} colour with {ctor} from exactly {nnext} following parameter(s) ({detail}): encoder and decoder disagree on the extended-colour form")
         # truncated sequences: next() protected
-        prot = any(isinstance(w, ast.With) and "suppress(StopIteration)" in norm(w.items[0].context_expr) for w in node.body) or any(isinstance(w, ast.Try) for w in node.body)
+
+        def protected(body):
+            for w in body:
+                if isinstance(w, ast.With) and "suppress(StopIteration)" in norm(w.items[0].context_expr):
+                    return True
+                if isinstance(w, ast.Try) and any(h.type is None or "StopIteration" in norm(h.type) or norm(h.type) in ("Exception", "BaseException") for h in w.handlers):
+                    return True
+            return False
+        prot = protected(region) or (helper is not None and protected(node.body))
         ctx.check(prot, f.fq, f"{lead}: suppress(StopIteration)", where, "a truncated parameter list is ignored", f"SGR {lead}: next() on the parameter iterator is not protected: a sequence cut short raises StopIteration")
     # from_rgb / from_ansi parameter order
     fr = ctx.repo.fn("color:Color.from_rgb")
